@@ -140,7 +140,11 @@ public:
             {
               context->_pool = this;
               if (!context->_thread.start(*context, &ThreadContext::proc))
+              { // the worker does not exist: undo the reservation made above, or every refused thread stays counted for ever
+                Mutex::Guard guard(_mutex);
+                --_threadCount;
                 context->_terminated = true;
+              }
             }
           }
         }
